@@ -1,6 +1,7 @@
 package main
 
 import (
+	"encoding/json"
 	"flag"
 	"fmt"
 	"os"
@@ -73,7 +74,25 @@ func cmdCheck(args []string) int {
 	verif := fs.String("verif", "/verif", "verif dir (evidence, spec, known findings)")
 	explain := fs.String("explain", "", "print every obligation whose key contains this string")
 	noSelf := fs.Bool("no-selftest", false, "thorough: skip self-tests")
+	replay := fs.String("explain-replay", "", "replay file written by a failing run: re-evaluate and print that obligation")
 	fs.Parse(args)
+	if *replay != "" {
+		b, err := os.ReadFile(*replay)
+		if err != nil {
+			fmt.Fprintln(os.Stderr, err)
+			return 2
+		}
+		var rp struct {
+			Obligation struct {
+				Key string `json:"key"`
+			} `json:"obligation"`
+		}
+		if err := json.Unmarshal(b, &rp); err != nil || rp.Obligation.Key == "" {
+			fmt.Fprintln(os.Stderr, "not a replay file:", *replay)
+			return 2
+		}
+		*explain = rp.Obligation.Key
+	}
 	if *tier == "" {
 		*tier = "quick"
 	}
